@@ -218,3 +218,122 @@ Proof.
   assert (Hl: (length (flat s') <= rlen r)%nat) by (unfold rlen; rewrite Hf, app_length; lia).
   destruct e as [[| |]|]; unfold rlen in *; rsimpl; repeat split; auto; discriminate.
 Qed.
+
+(* ------------------------------------------------------------------ NextFrame *)
+(* on any bytes: never longer, an error is a real error, success ate a header *)
+Lemma next_frame_gen r :
+  let '((h, e), r') := next_frame r in
+  (wf_src (r_src r) -> wf_src (r_src r')) /\ (rlen r' <= rlen r)%nat /\ e <> Some ROutOfFuel /\
+  (e = None -> (rlen r' + 2 <= rlen r)%nat).
+Proof.
+  unfold next_frame. change (reader_read_header (r_src r)) with (read_header (r_src r)).
+  pose proof (read_header_gen (r_src r)) as G. destruct (read_header (r_src r)) as [hr s1].
+  destruct G as (Hw & _ & Hle & Hok). fold (rlen r) in Hle, Hok.
+  destruct hr as [e|hdr].
+  { unfold rlen at 1. rsimpl. repeat split; auto; try discriminate.
+    destruct e as [[| |]| |]; try discriminate. destruct (st_fragmented (r_state r)); discriminate. }
+  specialize (Hok hdr eq_refl). destruct Hok as [Hok _].
+  destruct (if r_skip r then None else check_header hdr (r_state r)) as [rl|].
+  { unfold rlen at 1 2. rsimpl. repeat split; auto; discriminate. }
+  destruct ((0 <? r_max r)%Z && (r_max r <? h_len hdr)%Z).
+  { unfold rlen at 1 2. rsimpl. repeat split; auto; discriminate. }
+  destruct (if r_ext r then unset_bits hdr (r_compressed r) else Some (hdr, r_compressed r)) as [[hdr' comp']|].
+  2: { unfold rlen at 1 2. rsimpl. repeat split; auto; discriminate. }
+  destruct (st_fragmented (r_state r) && op_is_control (h_op hdr')).
+  2: { unfold rlen at 1 2. rsimpl. repeat split; auto; discriminate. }
+  set (r3 := mkR s1 _ _ _ _ _ _ _ _ _ _ _ _ _ _ _ _ _).
+  assert (H3: (wf_src (r_src r) -> wf_src (r_src r3)) /\ (rlen r3 + 2 <= rlen r)%nat) by (split; assumption).
+  destruct H3 as [Hw3 Hl3].
+  assert (H4: let '(e, r4) := match r_cb r with CbNone => (None, r3)
+                               | CbReadAll => cb_read_all hdr' (h_masked hdr) (if h_masked hdr then h_mask hdr else r_key (set_src r s1)) r3 end in
+              (wf_src (r_src r) -> wf_src (r_src r4)) /\ (rlen r4 + 2 <= rlen r)%nat /\ e <> Some ROutOfFuel).
+  { destruct (r_cb r).
+    - repeat split; auto; discriminate.
+    - pose proof (cb_read_all_gen hdr' (h_masked hdr) (if h_masked hdr then h_mask hdr else r_key (set_src r s1)) r3) as C.
+      destruct (cb_read_all _ _ _ r3) as [e r4]. destruct C as (C1 & _ & C3 & C4).
+      repeat split; auto. clear -C3 Hl3. lia. }
+  destruct (match r_cb r with CbNone => _ | CbReadAll => _ end) as [e r4].
+  destruct H4 as (Hw4 & Hl4 & Hn4).
+  destruct e as [e|].
+  { repeat split; auto; try discriminate. clear -Hl4. lia. }
+  pose proof (raw_drain_gen r4) as D. destruct (raw_drain r4) as [e2 r5]. destruct D as (D1 & _ & D3).
+  repeat split; auto; try (clear -Hl4 D3; lia). destruct e2; discriminate.
+Qed.
+
+(* ------------------------------------------------------------------ Read: every call makes progress *)
+Lemma reader_read_gen k r : wf_src (r_src r) -> 0 < k ->
+  let '((d, e), r') := reader_read k r in
+  wf_src (r_src r') /\ (rlen r' <= rlen r)%nat /\ e <> Some ROutOfFuel /\
+  (e = None -> (rmeasure r' < rmeasure r)%nat).
+Proof.
+  intros Hwf Hk. rewrite reader_read_eq. unfold rmeasure. destruct (r_frame r) eqn:Efr.
+  - pose proof (rgo_gen k r Hwf Hk) as R. destruct (rgo k r) as [[d e] r'].
+    destruct R as (Hw & Hle & Hn & Hp). repeat split; auto.
+    intros He. destruct (Hp He) as [Hlt|Hf]; [destruct (r_frame r'); lia|rewrite Hf; lia].
+  - destruct (negb (st_fragmented (r_state r))).
+    { repeat split; auto; discriminate. }
+    pose proof (next_frame_gen r) as F. destruct (next_frame r) as [[h e] r1].
+    destruct F as (Hw1 & Hle1 & Hn1 & Hok1). specialize (Hw1 Hwf).
+    destruct e as [e|].
+    { repeat split; auto; discriminate. }
+    specialize (Hok1 eq_refl). destruct (r_frame r1) eqn:Efr1.
+    + pose proof (rgo_gen k r1 Hw1 Hk) as R. destruct (rgo k r1) as [[d e] r'].
+      destruct R as (Hw & Hle & Hn & Hp). repeat split; auto; [lia|].
+      intros _. destruct (r_frame r'); lia.
+    + repeat split; auto; try discriminate. intros _. rewrite Efr1. lia.
+Qed.
+
+(* the statement of C15 for Read, spelled out *)
+Theorem every_read_makes_progress : forall k r d e r',
+  wf_src (r_src r) -> 0 < k -> reader_read k r = ((d, e), r') ->
+  wf_src (r_src r') /\
+  (length (flat (r_src r')) <= length (flat (r_src r)))%nat /\
+  e <> Some ROutOfFuel /\
+  (e = None -> (rmeasure r' < rmeasure r)%nat).
+Proof.
+  intros k r d e r' Hwf Hk H. pose proof (reader_read_gen k r Hwf Hk) as G. rewrite H in G. exact G.
+Qed.
+
+(* in the words of the property: a Read that returns no error either consumed
+   transport bytes, or closed the frame it was reading (which it can do once:
+   the next Read must consume a header or fail) *)
+Theorem read_progress_cases : forall k r d r',
+  wf_src (r_src r) -> 0 < k -> reader_read k r = ((d, None), r') ->
+  (length (flat (r_src r')) < length (flat (r_src r)))%nat \/
+  (length (flat (r_src r')) = length (flat (r_src r)) /\ r_frame r = true /\ r_frame r' = false).
+Proof.
+  intros k r d r' Hwf Hk H. destruct (every_read_makes_progress k r d None r' Hwf Hk H) as (_ & Hle & _ & Hm).
+  specialize (Hm eq_refl). unfold rmeasure, rlen in Hm.
+  destruct (r_frame r), (r_frame r'); try (left; lia).
+  destruct (Nat.eq_dec (length (flat (r_src r'))) (length (flat (r_src r)))) as [E|E]; [right; auto|left; lia].
+Qed.
+
+(* ------------------------------------------------------------------ read to io.EOF *)
+Lemma next_buf_positive bufs all : 0 < fst (next_buf bufs all).
+Proof.
+  unfold next_buf. destruct bufs as [|k b]; [destruct all as [|k b]|]; cbn [fst];
+    try (destruct (k =? 0) eqn:E; lia); reflexivity.
+Qed.
+
+Lemma read_to_eof_gen : forall fuel bufs all r racc, wf_src (r_src r) -> (rmeasure r < fuel)%nat ->
+  let '((p, e), r') := read_to_eof fuel bufs all r racc in
+  e <> ROutOfFuel /\ wf_src (r_src r') /\ (rlen r' <= rlen r)%nat.
+Proof.
+  induction fuel as [|fuel IH]; intros bufs all r racc Hwf Hm; [lia|].
+  cbn [read_to_eof]. pose proof (next_buf_positive bufs all) as Hk.
+  destruct (next_buf bufs all) as [k bufs']. cbn [fst] in Hk.
+  pose proof (reader_read_gen k r Hwf Hk) as R. destruct (reader_read k r) as [[d e] r1].
+  destruct R as (Hw1 & Hle1 & Hn1 & Hp1). destruct e as [e|].
+  - repeat split; auto. intros ->. apply Hn1. reflexivity.
+  - specialize (Hp1 eq_refl). specialize (IH bufs' all r1 (d :: racc) Hw1 ltac:(lia)).
+    destruct (read_to_eof fuel bufs' all r1 (d :: racc)) as [[p e] r'].
+    destruct IH as (I1 & I2 & I3). repeat split; auto. lia.
+Qed.
+
+Theorem read_to_eof_terminates : forall fuel bufs all r racc,
+  wf_src (r_src r) -> (rmeasure r < fuel)%nat ->
+  snd (fst (read_to_eof fuel bufs all r racc)) <> ROutOfFuel.
+Proof.
+  intros fuel bufs all r racc Hwf Hm. pose proof (read_to_eof_gen fuel bufs all r racc Hwf Hm) as G.
+  destruct (read_to_eof fuel bufs all r racc) as [[p e] r']. cbn [fst snd]. apply G.
+Qed.
